@@ -126,7 +126,13 @@ class Ctx:
                 f.write("\n".join(inputs) + "\n")
             cmd += ["--in", inp]
         t0 = time.time()
-        p = subprocess.run(cmd, stdout=subprocess.PIPE, stderr=subprocess.STDOUT, text=True, timeout=timeout, env=GOENV)
+        for attempt in (1, 2):
+            p = subprocess.run(cmd, stdout=subprocess.PIPE, stderr=subprocess.STDOUT, text=True, timeout=timeout, env=GOENV)
+            if p.returncode == 3 and attempt == 1:
+                # the driver's own watchdog fired (no event for 300 s): a hang of the harness/environment, retried once
+                log("(G) driver %s hung (watchdog), retrying once:\n%s" % (name, p.stdout[-3000:]))
+                continue
+            break
         if p.returncode != 0:
             raise NoVerdict("driver %s failed (%d):\n%s" % (" ".join(cmd), p.returncode, p.stdout[-5000:]))
         beh = [(int(m.group(1)), int(m.group(2)), int(m.group(3)), int(m.group(4)))
@@ -389,3 +395,18 @@ def c06(ctx):
     # (Mode = asis: fixSize may return nothing, cache.get may return nothing for an overlapping range) breaks the property
     adv = ctx.adversarial("MC_LogReader", "MC_LogReader_adv.cfg", keep=1500 if q else 20000)
     ctx.gv("tlc-adversarial", "Trace_LogReader", ["logreader", "--seed", str(seed())], inputs=adv)
+
+
+@check("C07")
+def c07(ctx):
+    ctx.assumptions += ["restore runs on a one-node in-process cluster (real NodeHost, real Raft proposals, real FSM on an in-memory FS); the gRPC chunk transport (Snapshot.Stream / Maintenance.Restore) is covered with C18, not here",
+                        "record sizes are model units (1..3) times 200/1000/5000 bytes with MaxInMemLogSize = 2 * threshold units, so the threshold falls on every record position",
+                        "settings in which one record exceeds the whole MaxInMemLogSize are excluded (threshold of 1 unit): dragonboat refuses such proposals for ever, for ordinary writes too"]
+    q = ctx.quick
+    ctx.design("MC_Restore", "MC_Restore_quick.cfg" if q else "MC_Restore_thorough.cfg")
+    # every (record sizes, threshold) case on which the model of the pinned commit loses / adds a pair or the index
+    adv = ctx.adversarial("MC_Restore", "MC_Restore_adv.cfg", keep=100000)
+    # a single record larger than the whole MaxInMemLogSize cannot be proposed at all (dragonboat rate-limits it for ever,
+    # ordinary writes included): such settings are outside the property; keep threshold 0 (unlimited) and >= 2 units
+    adv = [a for a in adv if json.loads(a)["th"] != 1][:60 if q else 1200]
+    ctx.gv("tlc-streams", "Trace_Restore", ["restore", "--seed", str(seed()), "--pit", str(6 if q else 60)], inputs=adv)
